@@ -15,17 +15,21 @@ class EventLog(object):
         self.lock = threading.Lock()
         self.events = []
         self.roles = {}
+        self._objs = {}
 
     def role(self):
+        # keyed by the thread *object*: idents are reused by the OS once a
+        # thread has ended, which would merge two networking threads
         t = threading.current_thread()
-        r = self.roles.get(t.ident)
-        if r is None:
+        r = self.roles.get(id(t))
+        if r is None or self._objs.get(id(t)) is not t:
             if t.name.startswith('Networking Thread'):
                 n = sum(1 for v in self.roles.values() if v.startswith('net#'))
                 r = 'net#%d' % (n + 1)
             else:
                 r = t.name
-            self.roles[t.ident] = r
+            self.roles[id(t)] = r
+            self._objs[id(t)] = t          # keeps the object (and id) alive
         return r
 
     def emit(self, kind, **payload):
@@ -43,8 +47,9 @@ class FileProxy(object):
     counts reads that return b'' and stops a spinning reader."""
 
     def __init__(self, inner, log, rng=None, short_reads=False,
-                 spin_limit=50):
+                 spin_limit=50, gen=0):
         self.inner, self.log, self.rng = inner, log, rng
+        self.gen = gen
         self.short_reads = short_reads
         self.empty_reads = 0
         self.reads = 0
@@ -57,7 +62,7 @@ class FileProxy(object):
         if self.short_reads and n and n > 1 and self.rng is not None:
             k = self.rng.randrange(1, n + 1)
         data = self.inner.read(k)
-        self.log.emit('io.read', want=n, got=len(data or b''))
+        self.log.emit('io.read', want=n, got=len(data or b''), gen=self.gen)
         if not data and n:
             self.empty_reads += 1
             if self.empty_reads >= self.spin_limit:
@@ -81,8 +86,10 @@ class SocketProxy(object):
     calling thread; optionally yields between sends (the gap between a frame's
     length prefix and its body becomes a pre-emption point)."""
 
-    def __init__(self, inner, log, rng=None, yield_prob=0.0, hook=None):
+    def __init__(self, inner, log, rng=None, yield_prob=0.0, hook=None,
+                 gen=0):
         self.inner, self.log, self.rng = inner, log, rng
+        self.gen = gen
         self.yield_prob = yield_prob
         self.hook = hook
         self.closed = False
@@ -90,7 +97,7 @@ class SocketProxy(object):
     def send(self, data):
         if self.hook:
             self.hook('send', self, data)
-        self.log.emit('io.send', data=bytes(data))
+        self.log.emit('io.send', data=bytes(data), gen=self.gen)
         r = self.inner.send(data)
         if self.yield_prob and self.rng.random() < self.yield_prob:
             time.sleep(0.0003 if self.rng.random() < 0.3 else 0)
@@ -103,12 +110,12 @@ class SocketProxy(object):
         return self.inner.fileno()
 
     def shutdown(self, *a, **k):
-        self.log.emit('io.shutdown')
+        self.log.emit('io.shutdown', gen=self.gen)
         return self.inner.shutdown(*a, **k)
 
     def close(self):
         self.closed = True
-        self.log.emit('io.close')
+        self.log.emit('io.close', gen=self.gen)
         return self.inner.close()
 
     def __getattr__(self, name):
@@ -128,17 +135,33 @@ def monitored_connection_class():
         vf_send_hook = None
         vf_wrap = True
 
+        def __setattr__(self, name, value):
+            # observes who replaces the packet reactor (state shared between
+            # a connection and its successor)
+            if name == 'reactor' and self.__dict__.get('vf_log') is not None:
+                from minecraft.networking.connection import NetworkingThread
+                cur = threading.current_thread()
+                stale = isinstance(cur, NetworkingThread) and \
+                    bool(cur.interrupt) and (
+                        self.__dict__.get('new_networking_thread') is not None
+                        or self.__dict__.get('networking_thread') is not cur)
+                self.__dict__['vf_log'].emit(
+                    'state.reactor', cls=type(value).__name__, stale=stale)
+            object.__setattr__(self, name, value)
+
         def _connect(self):
             log = self.vf_log
             if log is not None:
                 log.emit('api.tcp_connect')
             super(MonitoredConnection, self)._connect()
             if log is not None and self.vf_wrap:
+                self.vf_generation = getattr(self, 'vf_generation', 0) + 1
                 self.file_object = FileProxy(
-                    self.file_object, log, self.vf_rng, self.vf_short_reads)
+                    self.file_object, log, self.vf_rng, self.vf_short_reads,
+                    gen=self.vf_generation)
                 self.socket = SocketProxy(
                     self.socket, log, self.vf_rng, self.vf_send_yield,
-                    self.vf_send_hook)
+                    self.vf_send_hook, gen=self.vf_generation)
                 self.vf_file_proxies = getattr(self, 'vf_file_proxies', [])
                 self.vf_file_proxies.append(self.file_object)
 
